@@ -10,7 +10,10 @@ fn state_of(n: usize, start: usize) -> State<u8> {
         3 => vec![0, 1, 2],
         _ => vec![0, 1, 2, 3],
     };
-    State { elements, next: AtomicUsize::new(start) }
+    State {
+        elements,
+        next: AtomicUsize::new(start),
+    }
 }
 
 /// C20: for a non-empty backend list, `next()` returns element `c % len` where c is the value
@@ -27,9 +30,15 @@ fn k5_cycle_next_is_counter_mod_len() {
     let got = *s.next();
     kani::cover!(c == usize::MAX, "reachable: counter wraps");
     assert!(got as usize == c % n, "C20: backend index == counter % len");
-    assert!(s.next.load(Ordering::Relaxed) == c.wrapping_add(1), "C20: counter advances by exactly one");
+    assert!(
+        s.next.load(Ordering::Relaxed) == c.wrapping_add(1),
+        "C20: counter advances by exactly one"
+    );
     let got2 = *s.next();
-    assert!(got2 as usize == c.wrapping_add(1) % n, "C20: the next call gets the next counter value");
+    assert!(
+        got2 as usize == c.wrapping_add(1) % n,
+        "C20: the next call gets the next counter value"
+    );
 }
 
 /// thorough tier: the same contract with the backend count enumerated up to 8 (still BOUNDED in that dimension)
@@ -45,8 +54,14 @@ fn k5_cycle_next_upto8() {
         elements.push(i);
         i += 1;
     }
-    let s = State { elements, next: AtomicUsize::new(c) };
+    let s = State {
+        elements,
+        next: AtomicUsize::new(c),
+    };
     let got = *s.next();
     assert!(got as usize == c % n, "C20: backend index == counter % len");
-    assert!(s.next.load(Ordering::Relaxed) == c.wrapping_add(1), "C20: counter advances by exactly one");
+    assert!(
+        s.next.load(Ordering::Relaxed) == c.wrapping_add(1),
+        "C20: counter advances by exactly one"
+    );
 }
